@@ -141,8 +141,17 @@ def cases(draw, api):
         elif uids == 'single': sel = [draw(st.integers(0, n - 1))]
         else: sel = draw(st.lists(st.integers(0, n - 1), min_size=1, max_size=n,
                                   unique=True))
-    return {'api': api, 'req': req, 'timeout': timeout, 'uids': uids, 'sel': sel,
+    case = {'api': api, 'req': req, 'timeout': timeout, 'uids': uids, 'sel': sel,
             'ents': ents}
+    if kind == 'task' and n >= 2 and draw(st.integers(0, 3)) == 0:
+        # some tasks are named by the application - with names of the form the task manager
+        # generates itself, which it has not handed out yet - the others get generated names
+        naming = [draw(st.booleans()) for _ in range(n)]
+        naming[draw(st.integers(0, n - 1))] = True
+        if all(naming):
+            naming[draw(st.integers(0, n - 1))] = False
+        case['naming'] = naming
+    return case
 
 
 def parts(tier):
@@ -262,9 +271,27 @@ def run_case(case):
     sess = HollowSession()
     if kind == 'task':
         mgr  = hollow_tmgr(sess)
-        ents = mgr.submit_tasks([rp.TaskDescription({'uid': 'task.%06d' % i,
-                                                     'executable': '/bin/true'})
-                                 for i in range(n)])
+        naming = case.get('naming')
+        if isinstance(naming, list) and len(naming) == n and any(naming) and not all(naming):
+            # named tasks first (names the generator will reach next), then the unnamed ones
+            import radical.utils as ru
+            nxt = int(ru.generate_id('task.%(item_counter)06d', ru.ID_CUSTOM,
+                                     ns=sess.uid).split('.')[1]) + 1
+            ents = [None] * n
+            k = 0
+            for i in range(n):
+                if naming[i]:
+                    ents[i] = mgr.submit_tasks(rp.TaskDescription(
+                        {'uid': 'task.%06d' % (nxt + k), 'executable': '/bin/true'}))
+                    k += 2          # every other number the generator would produce
+            for i in range(n):
+                if not naming[i]:
+                    ents[i] = mgr.submit_tasks(rp.TaskDescription({'executable': '/bin/true'}))
+            res.label('task_names:application_and_generated')
+        else:
+            ents = mgr.submit_tasks([rp.TaskDescription({'uid': 'task.%06d' % i,
+                                                         'executable': '/bin/true'})
+                                     for i in range(n)])
 
         def update(i, s):
             mgr._update_tasks([{'uid': ents[i].uid, 'type': 'task', 'state': s}])
